@@ -59,11 +59,19 @@ def main(argv=None) -> int:
             raise AnalysisError(f"unknown property {prop}")
         ctx = run_property(prop, a.tier, a.repo)
         extra = {}
+        fresh, kn, known = classify(ctx)
         if a.tier == "thorough" and not a.replay:
             from . import selftest
 
-            extra = selftest.run_for(prop)
-        fresh, kn, known = classify(ctx)
+            try:
+                extra = selftest.run_for(prop)
+            except AnalysisError as e:
+                if not fresh:
+                    raise
+                # the tree under test already violates the property: the corpus (anchored on the clean tree) may not apply;
+                # the violation is the verdict, the self-test problem is reported as a note
+                print(f"SELFTEST-NOTE property={prop} {e}")
+                extra = {"selftest": {"note": str(e)[:400]}}
         mod = importlib.import_module(f"sa.rules.{prop.lower()}")
         if a.replay:
             with open(a.replay, "r", encoding="utf-8") as f:
